@@ -2135,8 +2135,12 @@ evhttp_header_is_valid_value(const char *value)
 	const char *p = value;
 
 	while ((p = strpbrk(p, "\r\n")) != NULL) {
-		/* we really expect only one new line */
-		p += strspn(p, "\r\n");
+		/* exactly one line break: a second one would be an empty line,
+		 * i.e. the end of the header section */
+		if (p[0] == '\r' && p[1] == '\n')
+			p += 2;
+		else
+			p += 1;
 		/* we expect a space or tab for continuation */
 		if (*p != ' ' && *p != '\t')
 			return (0);
